@@ -207,3 +207,61 @@ c06_answer_of_service!(c06_answer_txt, RRType::TXT, false, true, false);
 // @stubs clock(overlay)
 // @covers default_ttls
 c06_answer_of_service!(c06_answer_any, RRType::ANY, true, true, false);
+
+// ---------------------------------------------------------------------------
+// C10 / C06 - the PTR answer with its additionals, and their suppression
+// ---------------------------------------------------------------------------
+
+// @harness c10_ptr_additionals
+// @property X10
+// @maps vmap
+// @tier quick
+// @functions DnsOutgoing::add_answer_with_additionals, DnsOutgoing::add_answer, DnsRecordExt::suppressed_by, ServiceInfo::get_addrs_on_my_intf_v4, valid_ip_on_intf
+// @bound a registered instance with a subtype and one IPv4 address on the interface's /24 (concrete address and port, symbolic host/other TTLs); the query lists the instance's PTR as a known answer with every TTL (u32)
+// @oracle PTR suppressed (listed TTL above half of ours) => the response gets NO answer and NO additional at all (also not the subtype PTR); otherwise exactly the PTR answer (other TTL, no flush) and the additionals subtype PTR, SRV (host TTL, flush), TXT (other TTL, flush), A (host TTL, flush, that address)
+// @stubs clock(overlay)
+// @covers suppressed, answered
+#[kani::proof]
+#[kani::unwind(6)]
+fn c10_ptr_additionals() {
+    set_clock(any_time());
+    let (port, host_ttl, other_ttl): (u16, u32, u32) = (4000, kani::any(), kani::any());
+    let mut svc = crate::service_info::verif_kani::svc_literal(port, 0, 0, host_ttl, other_ttl);
+    let addr = Ipv4Addr::new(10, 0, 0, 5);
+    crate::service_info::verif_kani::svc_add_addr_and_subtype(&mut svc, IpAddr::V4(addr), "s.t.");
+    let mut addrs = HashSet::new();
+    addrs.insert(IfAddr::V4(Ifv4Addr { ip: Ipv4Addr::new(10, 0, 0, 1), netmask: Ipv4Addr::new(255, 255, 255, 0), prefixlen: 24, broadcast: None }));
+    let intf = MyIntf { name: String::from("e"), index: 1, addrs };
+    let reg = DnsRegistry::new();
+    let mut msg = mk_incoming(Vec::with_capacity(1), 0, 0);
+    let listed: bool = true;
+    let known_ttl: u32 = kani::any();
+    if listed {
+        msg.answers_mut().push(DnsPointer::new("t.", RRType::PTR, CLASS_IN, known_ttl, String::from("i.t.")).boxed());
+    }
+    let mut out = DnsOutgoing::new(FLAGS_QR_RESPONSE | FLAGS_AA);
+    out.add_answer_with_additionals(&msg, &svc, &intf, &reg, true);
+    let suppressed = listed && known_ttl > other_ttl / 2;
+    if suppressed {
+        assert!(out.answers_count() == 0, "a suppressed PTR was answered");
+        assert!(out.additionals().is_empty(), "a suppressed PTR still brought additionals");
+        assert!(out.known_answer_count() == 1);
+        kani::cover!(true, "suppressed");
+    } else {
+        assert!(out.answers_count() == 1 && out.known_answer_count() == 0);
+        let p = &out._answers()[0].0;
+        assert!(p.get_type() == RRType::PTR && p.get_record().get_ttl() == other_ttl && !p.get_cache_flush());
+        assert!(out.additionals().len() == 4, "additionals must be subtype PTR, SRV, TXT and the address");
+        let a = out.additionals();
+        assert!(a[0].get_type() == RRType::PTR && a[1].get_type() == RRType::SRV && a[2].get_type() == RRType::TXT && a[3].get_type() == RRType::A);
+        assert!(a[1].get_record().get_ttl() == host_ttl && a[1].get_cache_flush() && a[1].any().downcast_ref::<DnsSrv>().unwrap().port() == port);
+        assert!(a[2].get_record().get_ttl() == other_ttl && a[2].get_cache_flush());
+        assert!(a[3].get_record().get_ttl() == host_ttl && a[3].get_cache_flush());
+        kani::cover!(listed, "answered");
+    }
+    core::mem::forget(out);
+    core::mem::forget(msg);
+    core::mem::forget(svc);
+    core::mem::forget(intf);
+    core::mem::forget(reg);
+}
